@@ -304,5 +304,5 @@ func record(a *hx.Args) error {
 func probeOf(ln traceLine) map[string]interface{} {
 	return map[string]interface{}{"fam": "probe", "ver": ln.Ver, "type": ln.Type, "api": ln.API, "raw": ln.Raw,
 		"top": map[string]string{}, "con": map[string]string{}, "tpi": map[string]string{}, "tpiobj": ln.TpiObj,
-		"ktop": []string{}, "kcon": []string{}, "ktpi": []string{}, "free": false}
+		"ktop": []string{}, "kcon": []string{}, "ktpi": []string{}}
 }
